@@ -169,6 +169,50 @@ def continuity(ctx, shape="cubic", fn="eqRadiusFactor", L=1.0):
     ctx.prove("inputs below 1 give the value at 1", ctx.all([ctx.le(f0 - f1, 1e-9, rtol=0.0), ctx.le(f1 - f0, 1e-9, rtol=0.0)]))
 
 
+def cub_kinetic(ctx, L=4.0, amax=1.5):
+    """cuboidal kinetic factor f(a) = 0.1 exp(-0.091 (a-1)) + 1.736 s / (cbrt(a) log X),  s = sqrt(a^2-1),  X = 2a^2 + 2a s - 1:
+    the value returned at aspect ratio 1 equals the limit of the formula for a -> 1+, in the form |f(a) - f(1)| <= L (a-1) + 1e-9 on
+    (1, amax].  log is uninterpreted; two ground instances of true bounds are supplied for the argument the code uses (t = X - 1 >= 0):
+        2t/(2+t) <= log(1+t) <= t(2+t)/(2(1+t))
+    (the differences to log(1+t) have the derivatives t^2/((1+t)(2+t)^2) >= 0 and t^2/(2(1+t)^2) >= 0 and vanish at 0).
+    The proof is cut into lemmas about the terms the real code built; a lemma is used as a hypothesis only after it was posed as an
+    obligation itself (so an undischarged lemma shows up as inconclusive, never as success)."""
+    d = DESC["cubic"]()
+    a = ctx.real("a", (1.0, amax))
+    ctx.assume(a > 1); ctx.assume(a <= amax)
+    f1 = d.kineticFactor(1.0)
+    fa = d.kineticFactor(a)
+    _obs(ctx, "f1", f1); _obs(ctx, "fa", fa)
+    f0 = d.kineticFactor(0.5 * a)
+    ctx.prove("inputs below 1 give the value at 1", ctx.all([ctx.le(f0 - f1, 1e-9, rtol=0.0), ctx.le(f1 - f0, 1e-9, rtol=0.0)]))
+    bound = L * (a - 1) + 1e-9
+    final = ctx.all([ctx.le(fa - f1, bound, rtol=0.0), ctx.le(f1 - fa, bound, rtol=0.0)])
+    if ctx.mode == "symbolic":
+        ac = _clamp(ctx, a)
+        sq = np.sqrt(ac**2 - 1); c = np.cbrt(ac)
+        X = 2 * ac**2 + 2 * ac * sq - 1
+        lg = np.log(X); E = np.exp(-0.091 * (ac - 1))
+        t = X - 1; u = ac + sq
+        q = fa - 0.1 * E
+
+        def lemma(name, cond):
+            ctx.prove("lemma: " + name, cond)
+            ctx.assume(cond, name)
+        ctx.assume(ctx.all([lg * (2 + t) >= 2 * t, 2 * lg * (1 + t) <= t * (2 + t)]), "2t/(2+t) <= log(1+t) <= t(2+t)/(2(1+t)), t >= 0")
+        lemma("s = sqrt(a^2-1) > 0, X - 1 = 2 s (a + s), X = (a + s)^2", ctx.all([sq > 0, ctx.eq(sq * sq, ac * ac - 1), ctx.eq(t, 2 * sq * u), ctx.eq(X, u * u)]))
+        lemma("1 <= cbrt(a) <= a", ctx.all([c >= 1, c <= ac]))
+        lemma("1 - 0.091 (a-1) <= exp(-0.091 (a-1)) < 1", ctx.all([E < 1, E >= 1 - 0.091 * (ac - 1)]))
+        lemma("log X > 0", lg > 0)
+        lemma("2 s <= a log X   (from the lower bound of the logarithm)", 2 * sq <= ac * lg)
+        lemma("(a+s) log X <= s (1 + (a+s)^2)   (from the upper bound of the logarithm)", u * lg <= sq * (1 + u * u))
+        lemma("second term q = 1.736 s / (cbrt(a) log X)", ctx.eq(q * (c * lg), 1.736 * sq))
+        lemma("q <= 0.868 a", q <= 0.868 * ac)
+        lemma("q (1 + (a+s)^2) cbrt(a) >= 1.736 (a+s)", q * (1 + u * u) * c >= 1.736 * u)
+        lemma("(a+s-1)^2 <= 4 a (a-1)", (u - 1) * (u - 1) <= 4 * ac * (ac - 1))
+        lemma("q >= 0.868 - 3.5 (a-1)", q >= 0.868 - 3.5 * (ac - 1))
+    ctx.prove("cuboidal kinetic factor: value at 1 equals the limit of the ar>1 formula: |f(a)-f(1)| <= L(a-1)+1e-9", final)
+
+
 # ------------------------------------------------------------------------------------------------ ShapeFactor (functions of R)
 
 def via_radius(ctx, shape="needle", fn="thermoFactor", mode="callable", n=2):
@@ -569,6 +613,10 @@ HARNESSES = [
     Harness("C15.continuity", continuity, functions=_FN,
             assumptions=_A + ["continuity at 1 is checked in the quantitative form |f(a)-f(1)| <= L (a-1) + 1e-9 for 1 < a <= 2 (L = 1), for the factors that are algebraic in a"],
             params={"quick": _cont, "thorough": _cont}),
+    Harness("C15.cub_kinetic", cub_kinetic, functions=_FN, opts={"ob_timeout": 60.0},
+            assumptions=_A + ["1 < a <= 1.5; continuity at 1 in the quantitative form |f(a)-f(1)| <= 4 (a-1) + 1e-9",
+                              "ground instances of 2t/(2+t) <= log(1+t) <= t(2+t)/(2(1+t)) (t >= 0) for the logarithm the formula takes; exp through the engine's axioms exp(x) >= 1+x, exp(x) < 1 for x < 0"],
+            params={"quick": [{"L": 4.0, "amax": 1.5}], "thorough": [{"L": 4.0, "amax": 1.5}, {"L": 4.0, "amax": 1.1}]}),
     Harness("C15.via_radius", via_radius, functions=_FN, assumptions=_A + ["callable aspect ratio: aspect(R) = c + k R with symbolic c, k"], bounds={"array length": "n"},
             params={"quick": [{"shape": "needle", "fn": "thermoFactor", "mode": "callable", "n": 2}, {"shape": "plate", "fn": "kineticFactor", "mode": "scalar", "n": 2},
                               {"shape": "cubic", "fn": "eqRadiusFactor", "mode": "callable", "n": 2}, {"shape": "plate", "fn": "normalRadii", "mode": "callable", "n": 2},
